@@ -166,3 +166,47 @@ Proof.
   intros src n s s' W H E. pose proof (array_copy_ctor_spec src n s W H) as X. unfold wp in X. rewrite E in X.
   destruct X as [M A _ _]. split; auto.
 Qed.
+
+(* ---- BucketLimP4::AddCrt, branch "the current block still has a free slot" (details/HashBucketLimP4.h:345-353):
+        the item creator runs FIRST, the bucket's metadata (mShortHashes[count], i.e. the occupancy of the slot) is written
+        only after it has succeeded.  rCount models the number of occupied slots derived from mShortHashes. ------------- *)
+Definition bucket_add_inplace (item_creator : loc -> M unit) : M unit :=
+  items <- getr rItems ;; cnt <- getr rCount ;;
+  item_creator (items, cnt) ;;
+  setr rCount (S cnt).
+(* the seeded ordering: slot marked occupied before the creator runs *)
+Definition bucket_add_inplace_premature (item_creator : loc -> M unit) : M unit :=
+  items <- getr rItems ;; cnt <- getr rCount ;;
+  setr rCount (S cnt) ;;
+  item_creator (items, cnt).
+
+Theorem bucket_add_inplace_spec : forall creator fp P R s,
+  exec_spec (creator (regs (hp s) rItems, regs (hp s) rCount)) fp P R -> P (hp s) ->
+  wp (bucket_add_inplace creator) s
+     (fun _ s' => regs (hp s') rCount = S (regs (hp s) rCount) /\
+                  (forall r, r <> rCount -> regs (hp s') r = regs (hp s) r) /\
+                  agree (fun l => ~ fp l) (hp s) (hp s'))
+     (fun s' => heq (hp s) (hp s')).
+Proof.
+  intros creator fp P R s Hex HP. unfold bucket_add_inplace.
+  apply wp_bind, wp_getr. apply wp_bind, wp_getr. apply wp_bind.
+  apply (ex_run _ _ _ _ Hex s HP).
+  - intros s' H'. exact H'.
+  - intros s1 Ag Hr HR. apply wp_setr. intros s2 H2. split; [|split].
+    + rewrite (hq_regs _ _ H2), <- (Hr rCount). apply regs_hsetr_same.
+    + intros r Hn. rewrite (hq_regs _ _ H2), regs_hsetr_other by auto. apply Hr.
+    + destruct Ag as [Am Aa Ab An]. destruct H2 as [Hm Ha Hb Hn _]. split; intros; simpl in *.
+      * rewrite Hm. auto. * rewrite Ha; auto. * rewrite Hb; auto. * congruence.
+Qed.
+
+Definition bucket_demo_heap : heap :=
+  mkH (fun l => if loc_eqb l (0, 0) then Live 7 else if loc_eqb l (1, 0) then Live 100 else Raw)
+      (fun b => b <? 2) (fun b => if b =? 0 then 1 else 2) 2
+      (fun r => if r =? rItems then 1 else if r =? rCount then 1 else if r =? rCap then 2 else 0).
+Lemma bucket_add_inplace_premature_leaves_slot_marked :
+  exists s', bucket_add_inplace_premature (creator_copy (0, 0)) (mkS bucket_demo_heap [true] []) = (Exn, s') /\
+             regs (hp s') rCount = 2 /\ mem (hp s') (1, 1) = Raw.
+Proof. eexists. split; [vm_compute; reflexivity|]. split; reflexivity. Qed.
+Lemma bucket_add_inplace_same_run_ok :
+  exists s', bucket_add_inplace (creator_copy (0, 0)) (mkS bucket_demo_heap [true] []) = (Exn, s') /\ regs (hp s') rCount = 1.
+Proof. eexists. split; [vm_compute; reflexivity|]. reflexivity. Qed.
